@@ -6,27 +6,49 @@
 # Exit 0: property held on everything explored (KNOWN-FINDING lines may be printed).
 # Exit 1: "VIOLATION property=<id> replay=<path>" was printed.
 # Exit 3: inconclusive / harness could not run (never reported as a violation).
+#
+# Development knobs (not used by MANIFEST.json):
+#   VERIF_REPO=<dir>   build against a scratch copy/worktree of risor instead of /repo (for seeded mutants);
+#                      binaries go to harness/bin-alt-<hash>/, evidence/replays to $VERIF_OUT (default: a temp dir)
+#   VERIF_MAIN=<pkg>   main package to build instead of ./cmd/vcheck (per-property dev mains)
 set -u
 HERE="$(cd "$(dirname "$0")" && pwd)"
 export VERIF_DIR="$HERE"
 export GOFLAGS=-mod=mod GOPROXY=off GOSUMDB=off GOTOOLCHAIN=local
-export GOMAXPROCS="${GOMAXPROCS:-}"
-[ -z "$GOMAXPROCS" ] && unset GOMAXPROCS
 cd "$HERE/harness" || exit 3
-mkdir -p bin
+
+MAIN="${VERIF_MAIN:-./cmd/vcheck}"
+BIN=bin
+MODFLAG=""
+if [ -n "${VERIF_REPO:-}" ]; then
+  H=$(echo "$VERIF_REPO" | md5sum | cut -c1-8)
+  BIN="bin-alt-$H"
+  mkdir -p "$BIN"
+  sed "s#=> /repo#=> $VERIF_REPO#" go.mod > "$BIN/go.mod"
+  cp go.sum "$BIN/go.sum"
+  MODFLAG="-modfile=$BIN/go.mod"
+  if [ -z "${VERIF_OUT:-}" ]; then
+    export VERIF_OUT="/tmp/verif-out-$H"
+  fi
+  mkdir -p "$VERIF_OUT"
+fi
+if [ "$MAIN" != "./cmd/vcheck" ]; then
+  BIN="$BIN-$(basename "$MAIN")"
+fi
+mkdir -p "$BIN"
 
 needs_race() { case "$1" in C06|C07|C09|C10|--build) return 0;; *) return 1;; esac; }
 
 build() {
-  # Always rebuilt from /repo's working tree (go build is incremental); serialised with a lock
-  # so that concurrent invocations do not overwrite each other's binaries half-way.
+  # Always rebuilt from the repository's working tree (go build is incremental); serialised with a
+  # lock so that concurrent invocations do not overwrite each other's binaries half-way.
   (
     flock 9
-    go build -tags verif -o bin/vcheck.tmp ./cmd/vcheck && mv bin/vcheck.tmp bin/vcheck || exit 3
+    go build $MODFLAG -tags verif -o "$BIN/vcheck.tmp.$$" "$MAIN" && mv "$BIN/vcheck.tmp.$$" "$BIN/vcheck" || exit 3
     if needs_race "$1"; then
-      go build -race -tags verif -o bin/vcheck-race.tmp ./cmd/vcheck && mv bin/vcheck-race.tmp bin/vcheck-race || exit 3
+      go build $MODFLAG -race -tags verif -o "$BIN/vcheck-race.tmp.$$" "$MAIN" && mv "$BIN/vcheck-race.tmp.$$" "$BIN/vcheck-race" || exit 3
     fi
-  ) 9>bin/.build.lock
+  ) 9>"$BIN/.build.lock"
 }
 
 if [ "${1:-}" = "--build" ]; then
@@ -36,9 +58,9 @@ fi
 
 ID="${1:?usage: run.sh <ID> <quick|thorough>}"
 MODE="${2:-quick}"
-build "$ID" || { echo "INCONCLUSIVE property=$ID: harness build failed against /repo's current tree"; exit 3; }
-export VERIF_RACE_BIN="$HERE/harness/bin/vcheck-race"
+build "$ID" || { echo "INCONCLUSIVE property=$ID: harness build failed against the repository's current tree"; exit 3; }
+export VERIF_RACE_BIN="$HERE/harness/$BIN/vcheck-race"
 if [ "$MODE" = "--replay" ]; then
-  exec bin/vcheck replay "$ID" "${3:?replay file}"
+  exec "$BIN/vcheck" replay "$ID" "${3:?replay file}"
 fi
-exec bin/vcheck drive "$ID" "$MODE"
+exec "$BIN/vcheck" drive "$ID" "$MODE"
